@@ -22,7 +22,7 @@ Definition hcase := (ctr * list name * list istep * option export)%type.
 
 Definition class_of_kind (k : vkind) : Z :=
   match k with
-  | KSignal true => 0 | KSignal false => 1 | KInstance => 2 | KInstArray => 3 | KInstBundle => 4 | KBundleInst => 5
+  | KSignal true _ => 0 | KSignal false _ => 1 | KInstance => 2 | KInstArray => 3 | KInstBundle => 4 | KBundleInst => 5
   | _ => 6
   end.
 
@@ -139,7 +139,7 @@ Definition export_ok (c : ctr) (a : astate) (names : list name) (e : export) : b
     match a_map a n with
     | Some v =>
         match v_kind v with
-        | KSignal port => s && negb i && negb d && (is_bundle c || Bool.eqb p port)
+        | KSignal port _ => s && negb i && negb d && (is_bundle c || Bool.eqb p port)
         | KInstance => i && negb s && negb d
         | KInstArray | KInstBundle | KBundleInst => d && negb s && negb i
         | _ => false
